@@ -68,7 +68,9 @@ def u_interp(ctx):
     def thunk():
         import importlib
         e = cur()
-        for which in ("Haldane", "Kosambi"):
+        for which, stale in (("Haldane", False), ("Kosambi", False), ("Haldane", True), ("Kosambi", True)):
+            # stale: the matrix already carries genetic positions and crossover probabilities (from another map): the
+            # postcondition is the same -- both are recomputed from the map that is supplied now
             MF = getattr(importlib.import_module("pybrops.popgen.gmap.%sMapFunction" % which), "%sMapFunction" % which)
             from pybrops.popgen.gmat.DensePhasedGenotypeMatrix import DensePhasedGenotypeMatrix as PG
             p = fresh_int("p", 0)
@@ -79,6 +81,9 @@ def u_interp(ctx):
                 object.__setattr__(obj, k, v)
             for m in ("_vrnt_chrgrp_name", "_vrnt_chrgrp_stix", "_vrnt_chrgrp_spix", "_vrnt_chrgrp_len"):
                 object.__setattr__(obj, m, OArr.fresh(m, (fresh_int("g", 0),), "int64"))
+            if stale:
+                object.__setattr__(obj, "_vrnt_genpos", OArr.fresh("stale_genpos", (p,), "float64"))
+                object.__setattr__(obj, "_vrnt_xoprob", OArr.fresh("stale_xoprob", (p,), "float64"))
             calls = []
 
             class GMap:      # contract stub of a GeneticMap
@@ -111,7 +116,7 @@ def u_interp(ctx):
                     M.check_is_GeneticMap, M.check_is_GeneticMapFunction = saved
             finally:
                 MF.mapfn = real_mapfn
-            n = which + ":"
+            n = which + (":stale-positions:" if stale else ":")
             e.prove(n + "genpos := gmap.interp_genpos(chr, phys)", len(calls) >= 1 and calls[0][0] == "interp_genpos" and
                     calls[0][1] is chr_ and calls[0][2] is phy and same(obj._vrnt_genpos, gm.gp))
             e.prove(n + "distance := gmap.gdist1g(chr, interpolated genpos)", len(calls) == 2 and calls[1][0] == "gdist1g" and
@@ -138,3 +143,21 @@ def u_gd_std(ctx):
       targets=["pybrops/popgen/gmap/ExtendedGeneticMap.py:ExtendedGeneticMap.gdist1g"])
 def u_gd_ext(ctx):
     prove_gdist1g(ctx, "pybrops/popgen/gmap/ExtendedGeneticMap.py", "ExtendedGeneticMap")
+
+
+# the stored crossover probabilities reach the kernel unchanged: the stacking layer (same units as C01; here the obligation of
+# interest is `call<k>-crossover-probabilities-are-the-caller's`) -- the protocol layer's counterpart is C01's proto units
+from contracts import C01 as _c01
+
+
+def _reg_stack(target, callee, dh):
+    @unit(P, "stack[%s]: the kernel is called with the caller's crossover probabilities" % target.split(":")[1], "A2", targets=[target])
+    def u(ctx):
+        _c01._prove_stack(ctx, target, callee, dh)
+    return u
+
+
+_reg_stack(UTIL + ":mat_mate", "mat_meiosis", False)
+_reg_stack(UTIL + ":mat_dh", "mat_meiosis", True)
+_reg_stack(CORE + ":dense_cross", "dense_meiosis", False)
+_reg_stack(CORE + ":dense_dh", "dense_meiosis", True)
